@@ -154,6 +154,26 @@ Section S.
     - reflexivity.
   Qed.
 
+  (* custom operation arguments: right for types without list wrappers (and for types without serialize) *)
+  Lemma custom_args_aux f : forall t nn v log,
+    has_list t = false -> cfg_ser (scalar_cfg_of S (named_of t)) = Some f ->
+    occ_ser S t nn v = Some log -> match v with PNone => [] | _ => [(f, v)] end = log.
+  Proof.
+    induction t as [n|t' IH|t' IH]; intros nn v log Hl Ec H; try discriminate.
+    - simpl in *. rewrite Ec in H. destruct v; try discriminate; try (inversion H; reflexivity).
+      destruct nn; [discriminate|inversion H; reflexivity].
+    - simpl in *. eapply IH; eauto.
+  Qed.
+
+  Lemma custom_args_no_list t v log :
+    has_list t = false -> occ_ser S t false v = Some log -> custom_arg_log S t v = log.
+  Proof.
+    intros Hl H. unfold custom_arg_log. rewrite var_ser_cfg.
+    destruct (cfg_ser (scalar_cfg_of S (named_of t))) as [f|] eqn:Ec.
+    - eapply custom_args_aux; eauto.
+    - symmetry. eapply occ_ser_no_ser; eauto.
+  Qed.
+
   (* an unconfigured scalar (or one without parse / serialize) triggers no hook *)
   Lemma passthrough_parse : forall t nl j log,
     cfg_parse (scalar_cfg_of S (named_of t)) = None -> vlog (result_sann S t nl) j = Some log -> log = [].
